@@ -7,6 +7,19 @@ From TV Require Import Base.Prelude Spec.CbcCheck Toy.ToyMac Model.C01_RecordPip
 Import ListNotations.
 Open Scope Z_scope.
 
+Lemma tm_out_length fuel : forall base h n, (Z.to_nat n < fuel)%nat -> zlen (tm_out fuel base h n) = Z.max 0 n.
+Proof.
+  induction fuel as [|f IH]; intros base h n Hf; [lia|]. cbn [tm_out].
+  destruct (n <=? 0) eqn:E; [rewrite zlen_nil; lia|].
+  rewrite zlen_app. unfold zlen at 1. rewrite map_length, firstn_length. cbn [length].
+  destruct (Z_le_gt_dec n 7).
+  - rewrite IH by lia. lia.
+  - rewrite IH by lia. lia.
+Qed.
+
+Lemma toy2_mac_length key n msg : 0 <= n -> zlen (toy2_mac key n msg) = n.
+Proof. intros H. unfold toy2_mac. cbv zeta. rewrite tm_out_length by lia. lia. Qed.
+
 Lemma ts_run_involutive x : forall h,
   snd (ts_run h (snd (ts_run h x))) = x /\ fst (ts_run h (snd (ts_run h x))) = fst (ts_run h x) /\
   length (snd (ts_run h x)) = length x.
@@ -42,7 +55,7 @@ Lemma toy_aead_ok key tl : 0 <= tl -> aead_ok (toy_prim_aead key tl) tl.
 Proof.
   intros Htl n p a. cbn [toy_prim_aead pr_seal pr_open]. unfold ta_seal, ta_open.
   set (ct := snd (ts_run (ta_ks0 key n) p)).
-  assert (Htag : zlen (ta_tag key tl n a ct) = tl) by (apply toy_mac_length; exact Htl).
+  assert (Htag : zlen (ta_tag key tl n a ct) = tl) by (apply toy2_mac_length; exact Htl).
   assert (Hct : zlen ct = zlen p).
   { unfold zlen, ct. destruct (ts_run_involutive p (ta_ks0 key n)) as [_ [_ H]]. rewrite H. reflexivity. }
   rewrite zlen_app, Htag. replace (zlen ct + tl - tl) with (zlen ct) by lia.
@@ -75,18 +88,21 @@ Definition ex_mac := toy_hmac [1; 2; 3] 20 64.
 Definition ex_prim_stream := toy_prim_stream [1; 2; 3] 20 64.
 Definition ex_prim_id := id_prim ex_mac (ta_seal [4; 5] 16) (ta_open [4; 5] 16).
 
-Lemma ex_legacy_ok {CS} (P : Prim CS) c : pr_mac P = ex_mac -> ver_macable (c_ver c) = true ->
+Lemma ex_legacy_ok {CS} (P : Prim CS) c : pr_mac P = ex_mac \/ pr_mac P = toy2_hmac [1; 2; 3] 20 64 ->
+  ver_macable (c_ver c) = true ->
   c_tls13 c = false -> c_aead c = false -> c_has_mac c = true -> legacy_ok P c.
 Proof.
   intros Hm Hv H13 Ha Hmc. unfold legacy_ok.
   split; [assumption|]. split; [assumption|]. split; [assumption|]. split; [assumption|]. split.
-  - intros m. unfold ds. rewrite Hm. change (zlen (toy_mac [1; 2; 3] 20 m) = 20). apply toy_mac_length. lia.
-  - unfold ds. rewrite Hm. cbn. lia.
+  - intros m. unfold ds. destruct Hm as [Hm|Hm]; rewrite Hm.
+    + change (zlen (toy_mac [1; 2; 3] 20 m) = 20). apply toy_mac_length. lia.
+    + change (zlen (toy2_mac [1; 2; 3] 20 m) = 20). apply toy2_mac_length. lia.
+  - unfold ds. destruct Hm as [Hm|Hm]; rewrite Hm; cbn; lia.
 Qed.
 
 Lemma ex_stream_ok : mode_ok ex_prim_stream eq MStream ex_stream.
 Proof.
-  split; [unfold limits_ok; repeat split; apply Z.leb_le; reflexivity|]. split; [apply ex_legacy_ok; reflexivity|].
+  split; [unfold limits_ok; repeat split; apply Z.leb_le; reflexivity|]. split; [apply ex_legacy_ok; try reflexivity; right; reflexivity|].
   split; [reflexivity|]. split; [reflexivity|]. intros _. apply toy_stream_cipher_ok.
 Qed.
 
